@@ -757,10 +757,11 @@ def _check_api(route, stmts, raw, order, dump, outcomes, expected, fail, modelle
                 continue
             fail('%s-links-differ' % route, what)
             return None
-        if modelled and any(x['t'] == 'assoc' and _phrased(x) and x['sk'] == a['tk'] and set(x['skeys']) & set(a['tkeys'])
-                            for x in stmts):
-            # its identifying attributes are read through the links of a phrased association, which the open finding
-            # makes in the wrong direction: what `new` finds here is not predicted by the oracle (K compares it)
+        if modelled and any(x['t'] == 'assoc' and _phrased(x) and
+                            ((x['sk'] == a['tk'] and set(x['skeys']) & set(a['tkeys'])) or
+                             (x['sk'] == a['sk'] and set(x['skeys']) & set(a['skeys']))) for x in stmts):
+            # its identifying (or referential) attributes are read through the links of a phrased association, which the
+            # open finding makes in the wrong direction: what `new` finds here is not predicted by the oracle (K compares it)
             findings.setdefault('api-phrased-direction', what)
             continue
         if f != b or f - want:
